@@ -1,4 +1,4 @@
-"""pyvc.smt -- sorts, terms and the SMT-LIB context (declarations, datatypes, axioms).
+"""pvc.smt -- sorts, terms and the SMT-LIB context (declarations, datatypes, axioms).
 
 Terms are (sort, smt-text) pairs.  Sorts are strings ('Int', 'Bool', 'String',
 'Obj', 'Ref', or the name of a datatype declared by a contract module) or
@@ -54,6 +54,16 @@ class TupV:
 
     def __repr__(self):
         return f"<tup {self.items}>"
+
+
+class EmptyV:
+    """untyped empty container literal ({} / set() / dict() ...); typed when it meets a sort"""
+
+    def __init__(self, kind):
+        self.kind = kind
+        self.sort = ("Empty", kind)
+        self.cls = None
+        self.s = "empty"
 
 
 class Closure:
